@@ -22,7 +22,9 @@ RULE = ("[the input object is built once and deep-compared before/after the call
         "prefix/suffix-related alphabet {a,b,ab,ba,aa,xa,'a b','a.b',c} (plus distinct names), 1-12 paths, depth<=7, "
         "repeated paths, any order, all four leading/trailing-separator spellings, separators / . \\ | and ::, "
         "attribute maps with ints/strings/bools/None, both settings of duplicate_name_allowed, pre-existing random "
-        "trees (own separator, random start node) for the add_* family; separate malformed stream (different root, "
+        "trees (own separator, random start node) for the add_* family, about a third of them history-built (the same root "
+        "object was extended by an earlier add_path_to_tree call and a node on that path was then detached, renamed or "
+        "moved; the model sees the resulting tree only); separate malformed stream (different root, "
         "empty input, empty component, conflicting attribute rows); a case is non-trivial when the expected tree has "
         ">=3 nodes; distinct = distinct protocol lines")
 EXHAUSTIVE = {
@@ -109,7 +111,11 @@ def _runs(d):
     items = d["items"]
     ids = None
     root = None
-    if fn in ADD_FNS:
+    if fn in ADD_FNS and d.get("hist"):
+        root, nodes = _history_tree(d)
+        ids = core.IdMap(nodes)
+        start = nodes[d.get("start", 0)]
+    elif fn in ADD_FNS:
         root, nodes = core.build_node_tree(d["tree"], sep=d["tsep"])
         ids = core.IdMap(nodes)
         start = nodes[d.get("start", 0)]
@@ -170,6 +176,107 @@ def _runs(d):
         except Exception as e:
             out.append((None, None, ids, e))
     return out, _same(before, arg)
+
+
+class HistoryMismatch(Exception):
+    pass
+
+
+def _spec_of_real(n):
+    return [n.node_name, {k: v for k, v in n.describe(exclude_attributes=["name"], exclude_prefix="_")}, [_spec_of_real(c) for c in n.children]]
+
+
+def _history_tree(d):
+    """The tree the final call extends is reached through a HISTORY on the same root object: built as hist['tree0'],
+    extended by an earlier add_path_to_tree call along hist['warm'], then edited in place (a node on that path is
+    detached, renamed or moved). d['tree'] is the first-principles result of that history; the model only sees it."""
+    import bigtree
+    h = d["hist"]
+    tsep = d["tsep"]
+    root, _nodes = core.build_node_tree(h["tree0"], sep=tsep)
+    bigtree.add_path_to_tree(root, tsep.join(h["warm"]), sep=tsep)
+    kind, comps = h["edit"][0], h["edit"][1]
+    x = root
+    for c in comps[1:]:
+        x = next(k for k in x.children if k.node_name == c)
+    if kind == "detach":
+        x.parent = None
+    elif kind == "rename":
+        x.name = h["edit"][2]
+    elif kind == "move":
+        x.parent = root
+    if h.get("peek"):
+        for n in [root] + list(root.descendants):
+            n.path_name, n.depth
+    nodes = []
+    def pre(n):
+        nodes.append(n)
+        for c in n.children:
+            pre(c)
+    pre(root)
+    if _spec_of_real(root) != _strip_none(d["tree"]):
+        raise HistoryMismatch("the tree after add_path_to_tree(%r) + %s differs from the prefix-closure specification: %r"
+                              % (h["warm"], kind, _spec_of_real(root)))
+    return root, nodes
+
+
+def _strip_none(t):
+    return [t[0], {k: v for k, v in t[1].items()}, [_strip_none(c) for c in t[2]]]
+
+
+def _spec_add(tree, comps):
+    """first-principles add_path on a list-form spec: descend by names, create missing children last"""
+    cur = tree
+    for c in comps[1:]:
+        nxt = next((k for k in cur[2] if k[0] == c), None)
+        if nxt is None:
+            nxt = [c, {}, []]
+            cur[2].append(nxt)
+        cur = nxt
+    return tree
+
+
+def add_history(rng, case):
+    """turn an add_* case into a history-built one (None when the case does not lend itself to it)"""
+    import copy
+    d = case.data
+    if d["fn"] not in ADD_FNS or not d["items"] or any("malformed" in t for t in case.tags):
+        return None
+    tsep = d["tsep"]
+    tree0 = copy.deepcopy(d["tree"])
+    first = d["items"][0][0]
+    if len(first) < 2 or first[0] != tree0[0] or any((not c) or any(ch in c for ch in tsep) for c in first):
+        return None
+    warm = list(first[: rng.randint(2, len(first))])
+    if rng.random() < 0.4:
+        warm.append(rng.choice(["w0", "b", "a"]))
+    if any(any(ch in c for ch in tsep) for c in warm):
+        return None
+    tw = _spec_add(copy.deepcopy(tree0), warm)
+    j = rng.randint(1, len(warm) - 1)
+    comps = warm[: j + 1]
+    parent = tw
+    for c in comps[1:-1]:
+        parent = next(k for k in parent[2] if k[0] == c)
+    x = next(k for k in parent[2] if k[0] == comps[-1])
+    kind = rng.choice(["detach", "rename", "rename", "move"])
+    edit = [kind, comps]
+    if kind == "detach":
+        parent[2].remove(x)
+    elif kind == "rename":
+        new = rng.choice(["zq", "zr", "b2"])
+        if any(k[0] == new for k in parent[2]) or any(ch in new for ch in tsep):
+            return None
+        x[0] = new
+        edit.append(new)
+    else:
+        if parent is tw or any(k[0] == x[0] for k in tw[2]):
+            return None
+        parent[2].remove(x)
+        tw[2].append(x)
+    nd = dict(d, tree=tw, hist={"tree0": tree0, "warm": warm, "edit": edit, "peek": rng.random() < 0.5},
+              start=rng.choice([0, 0, rng.randrange(core.spec_size(tw))]))
+    return mk(nd, tuple(case.tags) + ("history", "hist:" + kind))
 
 
 def _call(d):
@@ -604,7 +711,12 @@ def gen(rng: random.Random, tier: str):
     for fn in FNS:
         k = n if fn not in DF_FNS else n // 2
         for i in range(k):
-            cases.append(_rand_case(rng, fn, malformed=(rng.random() < 0.14)))
+            c = _rand_case(rng, fn, malformed=(rng.random() < 0.14))
+            cases.append(c)
+            if fn in ADD_FNS and rng.random() < 0.5:
+                h = add_history(rng, c)
+                if h is not None:
+                    cases.append(h)
     return cases
 
 
@@ -622,6 +734,8 @@ def nontrivial(case):
 def shrink(case):
     d = case.data
     items = d["items"]
+    if d.get("hist"):
+        yield mk({k: v for k, v in d.items() if k != "hist"}, case.tags)
     if d.get("rep", 1) > 1:
         yield mk(dict(d, rep=1), case.tags)
     if d.get("share"):
@@ -641,6 +755,8 @@ def shrink(case):
             yield mk(dict(d, start=0), case.tags)
         spec = d["tree"]
         nodes = core.spec_nodes(spec)
+        if d.get("hist"):
+            return     # (the tree is the result of the recorded history: not shrunk independently of it)
         for idx in range(len(nodes) - 1, 0, -1):
             addr, s = nodes[idx]
             if s[2] or idx == d.get("start", 0):
